@@ -23,10 +23,13 @@ type ExecCase struct {
 	Doc    *model.Doc            `json:"doc"`
 	OpName string                `json:"opName"`
 	Vars   map[string]*model.Val `json:"vars"`
-	World  *ref.World            `json:"world"`
-	Layout *model.Layout         `json:"layout,omitempty"`
-	Regime string                `json:"regime,omitempty"`
-	Text   string                `json:"text,omitempty"` // informational: the printed document
+	// AltVars: other valuations of the same variables, for running one prepared plan / cache
+	// entry with several sets of variable values
+	AltVars []map[string]*model.Val `json:"altVars,omitempty"`
+	World   *ref.World              `json:"world"`
+	Layout  *model.Layout           `json:"layout,omitempty"`
+	Regime  string                  `json:"regime,omitempty"`
+	Text    string                  `json:"text,omitempty"` // informational: the printed document
 }
 
 func (c *ExecCase) fix() {
